@@ -237,6 +237,26 @@ func collectionProgram(t *rapid.T) string {
 		op("  ")
 		b.WriteString("catch e\n  println(\"err\")\nend\n")
 	}
+	// list / tuple literals built at run time with explicit `index => value` elements: indices inside the part
+	// built so far, exactly at its end, beyond it, and negative
+	for i := vgen.Pick(t, 4, "nlit"); i > 0; i-- {
+		x := fmt.Sprintf("x%d", i)
+		n := 1 + vgen.Pick(t, 3, "litn")
+		var es []string
+		for j := 0; j < n; j++ {
+			es = append(es, []string{x, x + " + 1", fmt.Sprint(j)}[vgen.Pick(t, 3, "lite")])
+		}
+		for j := 1 + vgen.Pick(t, 2, "nidx"); j > 0; j-- {
+			idx := len(es) + vgen.Pick(t, 5, "idxoff") - 2
+			key := fmt.Sprint(idx)
+			if vgen.Pick(t, 3, "idxvar") == 0 {
+				key = fmt.Sprintf("%s - %s + %d", x, x, idx)
+			}
+			es = append(es, key+" => "+x)
+		}
+		open := []string{"[", "%["}[vgen.Pick(t, 2, "littuple")]
+		fmt.Fprintf(&b, "%s := %d\ndo\n  println(%s%s].inspect)\ncatch e\n  println(\"err\")\nend\n", x, vgen.Pick(t, 7, "x0"), open, strings.Join(es, ", "))
+	}
 	return b.String()
 }
 
